@@ -39,6 +39,7 @@ inductive In
   | pingTick                    -- the keep-alive thread's interval elapsed
   | pong (fresh : Bool)         -- a pong arrives; `fresh` = its id is one of the outstanding pings
   | pongRaises                  -- a pong for an outstanding ping arrives and the application's callback for it raises
+  | setReconnect (b : Bool)     -- the application changes PROP_RECONNECT_ON_STREAM_ERR at run time (stack.setProp)
   | keysFlushed                 -- the server confirms the key upload of a passive login (control layer present: it reboots the connection)
   | loop                        -- the stack's loop runs the queued (detached) callbacks
   | appSend                     -- application sends a stanza
@@ -192,6 +193,7 @@ def step (s : St) : In → St × List Out
   | .pong fresh => if fresh then ({ s with outstanding := 0 }, []) else (s, [])
   -- `onPong`: `gotPong` (the keep-alive's bookkeeping) runs BEFORE the result is handed upward, so a raising callback cannot leave the ping recorded as unanswered
   | .pongRaises => ({ s with outstanding := 0 }, [.appRaised])
+  | .setReconnect b => ({ s with reconnectOpt := b }, [])
   | .keysFlushed =>
     -- on_keys_flushed(reboot_connection=True): flag, then DISCONNECT broadcast DOWNWARD from the control layer (the network layer
     -- destroys the connection; the layers above hear of it only through the deferred 'disconnected')
